@@ -296,3 +296,192 @@ func c19R8(c *Ctx, r *Report) {
 	}
 	r.Floor(rule, n, 1, "GetText call sites")
 }
+
+// ---- batch 2 ------------------------------------------------------------------------------------------------
+
+func init() {
+	lateInits = append(lateInits, func() {
+		props["C07"].Quick = append(props["C07"].Quick, c07R9)
+		props["C02"].Quick = append(props["C02"].Quick, c02R8)
+		props["C18"].Quick = append(props["C18"].Quick, c02R8, c11R10)
+		props["C04"].Quick = append(props["C04"].Quick, c04R8)
+		props["C11"].Quick = append(props["C11"].Quick, c11R10)
+		props["C07"].Explanation += " (R9) loans end in two places only: releaseBorrow is called by releaseTemps and releaseBinding, and releaseBinding by popScope and releaseExpiredRefs on the references the scope itself declared — a loan is never ended from inside a nested block (which a loop may run again)."
+		props["C02"].Explanation += " (R8) the wasm aggregate copy helper emits the runtime memcpy with the exact size on every successful path; a shortcut may exist only under equality tests of the size."
+		props["C04"].Explanation += " (R8) the native emitter scales an index by the element size with a multiplication; a shift is emitted only under a power-of-two test of the size (x&(x-1) == 0 or a one-bit population count)."
+		props["C11"].Explanation += " (R10) widenNumericValue converts whenever the two primitive numeric types differ: its early returns are guarded only by nil/invalid tests, the primitive-type assertions, type equality and the numeric-name predicate."
+	})
+}
+
+func c07R9(c *Ctx, r *Report) {
+	const rule = "C07.R9"
+	r.Describe(rule, "hir/analysis borrow checker: callers of releaseBorrow ⊆ {releaseTemps, releaseBinding}; callers of releaseBinding ⊆ {popScope, releaseExpiredRefs}")
+	rb := c.LookupFn(pkgHIRAn, "(*borrowChecker).releaseBorrow")
+	rbi := c.LookupFn(pkgHIRAn, "(*borrowChecker).releaseBinding")
+	if !r.Anchor(rule, rb != nil && rbi != nil, "hir/analysis releaseBorrow / releaseBinding") {
+		return
+	}
+	allowed := map[*types.Func]map[string]bool{
+		rb.Obj:  {"releaseTemps": true, "releaseBinding": true},
+		rbi.Obj: {"popScope": true, "releaseExpiredRefs": true},
+	}
+	n := 0
+	for _, fn := range c.AllFns(pkgHIRAn) {
+		info := fn.Info()
+		for _, cl := range callsIn(fn.Decl.Body, true) {
+			f := callee(info, cl)
+			if f == nil || allowed[f] == nil {
+				continue
+			}
+			n++
+			r.Check(allowed[f][fn.Obj.Name()], rule, fn.Name(), "calls "+f.Name()+" (loan ends here)", c.pos(cl.Pos()),
+				"a loan is ended outside the places that end it today (end of the temporaries of an expression, last use of a reference in the block that declared it, end of that block): ending the loan of an outer reference after its last textual use inside a nested block is unsound when the block is a loop body — the reference is used again in the next iteration while the referent has been written")
+		}
+	}
+	r.Floor(rule, n, 4, "calls of releaseBorrow / releaseBinding")
+}
+
+func c02R8(c *Ctx, r *Report) {
+	const rule = "C02.R8"
+	r.Describe(rule, "wasm emitMemcpy: every return with a nil error lies after the look-up of the ferret_memcpy import, or under a condition built from == tests of the size only")
+	fn := c.LookupFn(pkgWasm, "(*Generator).emitMemcpy")
+	if !r.Anchor(rule, fn != nil, "wasm.(*Generator).emitMemcpy") {
+		return
+	}
+	info := fn.Info()
+	var importPos token.Pos
+	ast.Inspect(fn.Decl.Body, func(x ast.Node) bool {
+		if bl, ok := x.(*ast.BasicLit); ok {
+			if v := constOf(info, bl); v != nil && v.Kind() == constant.String && constant.StringVal(v) == "ferret_memcpy" && importPos == token.NoPos {
+				importPos = bl.Pos()
+			}
+		}
+		return true
+	})
+	if !r.Anchor(rule, importPos != token.NoPos, "emitMemcpy: ferret_memcpy import") {
+		return
+	}
+	bad := ""
+	walkWithStack(fn.Decl.Body, func(x ast.Node, stack []ast.Node) bool {
+		ret, ok := x.(*ast.ReturnStmt)
+		if !ok || len(ret.Results) != 2 || ret.Pos() > importPos {
+			return true
+		}
+		if tv, ok := info.Types[ret.Results[1]]; !ok || !tv.IsNil() {
+			return true // an error return
+		}
+		okGuard := false
+		for _, a := range stack {
+			ifs, isIf := a.(*ast.IfStmt)
+			if !isIf {
+				continue
+			}
+			all := true
+			for _, d := range disjuncts(ifs.Cond) {
+				if _, isEq := isBinOp(d, token.EQL); !isEq {
+					all = false
+				}
+			}
+			if all {
+				okGuard = true
+			}
+		}
+		if !okGuard {
+			bad = c.pos(ret.Pos())
+		}
+		return true
+	})
+	r.Check(bad == "", rule, fn.Name(), "aggregate copies of every size go through the exact-size copy", c.pos(fn.Decl.Pos()),
+		"a shortcut path (return at "+bad+") copies without the runtime memcpy for a range of sizes: a 3-, 5-, 6- or 7-byte element copied with one 4- or 8-byte store overwrites the bytes after it, which belong to the next element of a fixed array; the native back end copies the exact size")
+}
+
+func c04R8(c *Ctx, r *Report) {
+	const rule = "C04.R8"
+	r.Describe(rule, "qbe: an emitted `shl` whose amount is computed from a size (bits.TrailingZeros / bits.Len) sits under a condition that proves the size a power of two")
+	n := 0
+	for _, fn := range c.AllFns(pkgQBE) {
+		info := fn.Info()
+		walkWithStack(fn.Decl.Body, func(x ast.Node, stack []ast.Node) bool {
+			bl, ok := x.(*ast.BasicLit)
+			if !ok || bl.Kind != token.STRING {
+				return true
+			}
+			v := constOf(info, bl)
+			if v == nil || v.Kind() != constant.String || !strings.Contains(constant.StringVal(v), " shl ") {
+				return true
+			}
+			// only shifts that stand for a multiplication: the function computes a shift amount with math/bits
+			usesBits := false
+			for _, cl := range callsIn(fn.Decl.Body, true) {
+				if f := callee(info, cl); f != nil && f.Pkg() != nil && f.Pkg().Path() == "math/bits" {
+					usesBits = true
+				}
+			}
+			if !usesBits {
+				return true
+			}
+			n++
+			proven := false
+			for _, a := range stack {
+				ifs, isIf := a.(*ast.IfStmt)
+				if !isIf {
+					continue
+				}
+				cs := exprStr(ifs.Cond)
+				if ifs.Init != nil {
+					cs += ";" + exprStr0(ifs.Init)
+				}
+				if strings.Contains(cs, "OnesCount") || (strings.Contains(cs, "&") && strings.Contains(cs, "-1")) || strings.Contains(cs, "- 1") && strings.Contains(cs, "&") {
+					proven = true
+				}
+			}
+			r.Check(proven, rule, fn.Name(), "shift used as a multiplication only for a power-of-two size", c.pos(bl.Pos()),
+				"an index is scaled with `shl` by the number of trailing zero bits of the element size without proving the size a power of two: a 12-byte element gets stride 4 and a 24-byte element stride 8, so a checked index selects the wrong bytes")
+			return true
+		})
+	}
+	r.Note("%s: %d strength-reduced scalings inspected", rule, n)
+}
+
+func c11R10(c *Ctx, r *Report) {
+	const rule = "C11.R10"
+	r.Describe(rule, "mir/gen widenNumericValue: every early `return val` is guarded by a condition that calls nothing but Equals, IsNumericTypeName, GetName and UnwrapType")
+	fn := c.LookupFn(pkgMIRGen, "(*functionBuilder).widenNumericValue")
+	cast := c.LookupFn(pkgMIRGen, "(*functionBuilder).castValue")
+	if !r.Anchor(rule, fn != nil && cast != nil, "mir/gen widenNumericValue / castValue") {
+		return
+	}
+	info := fn.Info()
+	allowed := map[string]bool{"Equals": true, "IsNumericTypeName": true, "GetName": true, "UnwrapType": true}
+	n := 0
+	ast.Inspect(fn.Decl.Body, func(x ast.Node) bool {
+		ifs, ok := x.(*ast.IfStmt)
+		if !ok {
+			return true
+		}
+		returnsUnchanged := false
+		for _, st := range ifs.Body.List {
+			if ret, ok := st.(*ast.ReturnStmt); ok && len(ret.Results) == 1 {
+				if _, isCall := ast.Unparen(ret.Results[0]).(*ast.CallExpr); !isCall {
+					returnsUnchanged = true
+				}
+			}
+		}
+		if !returnsUnchanged {
+			return true
+		}
+		n++
+		bad := ""
+		for _, cl := range callsIn(ifs.Cond, false) {
+			f := callee(info, cl)
+			if f == nil || !allowed[f.Name()] {
+				bad = exprStr(cl.Fun)
+			}
+		}
+		r.Check(bad == "", rule, fn.Name(), "`"+exprStr(ifs.Cond)+"`: value returned unconverted only for equal / non-numeric types", c.pos(ifs.Pos()),
+			"an implicit widening is skipped under "+bad+"(…): the value keeps its narrow type, and both back ends take the width of a store from the value's type — an i8 stored into an i32 field writes one byte and leaves the other three as they were")
+		return true
+	})
+	r.Floor(rule, n, 2, "early returns of widenNumericValue")
+	r.Check(nodeCallsDeep(info, fn.Decl.Body, cast.Obj), rule, fn.Name(), "differing numeric types reach castValue", c.pos(fn.Decl.Pos()), "widenNumericValue never converts")
+}
